@@ -28,6 +28,9 @@ HANDLERS = ["create", "create_key_pair", "delete_attribute", "register", "derive
 from vf.contracts import lookup as _lookup      # noqa: E402
 import contracts.c_attributes                   # noqa: E402,F401  (handlers that have their own contract)
 import contracts.c_locate                       # noqa: E402,F401
+import contracts.c_getattrs                     # noqa: E402,F401
+import contracts.c_get                          # noqa: E402,F401
+import contracts.c_derive                       # noqa: E402,F401
 for h in HANDLERS:
     if _lookup(E + "_process_" + h) is None:
         c = contract(E + "_process_" + h).props('C13')
